@@ -17,10 +17,14 @@ MODULE_NAMES = ['alpha', 'beta', 'gamma', 'delta']
 REL_NS = ['', '', '', 'm', 'train', 'n', 'xn', 'm::k']
 MOUNT_NS = ['n', 'xn', 'm', 'train', 'n2', 'a']
 KINDS_BASIC = ['dict', 'dict', 'list', 'str', 'int']
-KINDS_ALL = ['dict', 'list', 'str', 'int', 'numpy', 'frame', 'generator', 'lazy', 'list_numpy', 'dir', 'memory']
+KINDS_ALL = ['dict', 'list', 'str', 'int', 'numpy', 'frame', 'generator', 'lazy', 'list_numpy', 'dir', 'memory',
+             'gen_empty']
 PARAM_KEYS = ['x', 'y', 'z', 'lr', 'path', 'opt']
 
-param_values = values.json_values(text=values.TEXT_SMALL, max_leaves=5)
+# quote-free text, sometimes with placeholders (defined: DATA, CFGDIR when global_vars are given; UNDEF never)
+TEXT_PH = st.one_of(values.TEXT_SMALL, values.TEXT_SMALL, values.TEXT_SMALL,
+                    st.sampled_from(['{DATA}/f', 'pre_{DATA}', '{UNDEF}/u', '{CFGDIR}/q', '{DATA}{DATA}']))
+param_values = values.json_values(text=TEXT_PH, keys=values.TEXT_SMALL, max_leaves=5)
 # strings with quotes, separators of the key text and escapes (C12: representation must stay the 1.4.0 one)
 TEXT_KEYISH = st.one_of(values.TEXT_SMALL, st.sampled_from(["'", '"', "a'b", '###', '$$$', 'x=1', "', '", '\\', 'é', ' ', '[]',
                                                             '{A}', "it's", 'a###b=c', '\n']),
